@@ -337,7 +337,7 @@ class Container:
                 if name in self._data:
                     val = self._data[name]
                     if isinstance(val, np.ndarray):
-                        pt._data[name] = val[idx]
+                        pt._data[name] = val[: self._size][idx]
         return pt
 
     def _expand_capacity(self) -> None:
